@@ -99,8 +99,12 @@ class IPv4NetworkField(StringField):
             )
 
         # the stored value is the canonical text ("10.1.2.3" becomes "10.1.2.3/32"): it has to
-        # meet the string constraints (length, pattern, choices) too
-        return super()._validate(cfg, str(net))
+        # meet the string constraints (length, pattern, choices) too and to be left alone by the
+        # string transforms
+        canonical = str(net)
+        if super()._validate(cfg, canonical) != canonical:
+            raise ValueError("value is changed by the field's string transforms")
+        return canonical
 
 
 class HostnameField(StringField):
